@@ -49,8 +49,12 @@ func vC08Addr() []byte {
 	}
 }
 
-func vC08BlockID(tag string) types.BlockID {
-	switch vNondetLen(tag, 0, 2) {
+func vC08BlockID(tag string) types.BlockID { return vC08BlockIDX(tag, 2) }
+
+func vC08BlockIDX(tag string, kinds int) types.BlockID {
+	switch vNondetLen(tag, 0, kinds) {
+	case 3: // the id of the previous block (what last-commit precommits carry)
+		return types.BlockID{Hash: []byte{0x77}, PartsHeader: types.PartSetHeader{Total: 1, Hash: []byte{0x77}}}
 	case 1:
 		return types.BlockID{Hash: []byte{0xA}, PartsHeader: types.PartSetHeader{Total: 1, Hash: []byte{0xA}}}
 	case 2:
@@ -127,9 +131,33 @@ func vC08StateX(h *vCS, withProposal bool) {
 func VerifHarness_C08_vote_message() {
 	n := vParam("N", 3)
 	h := vNewCS(n, 5, -1)
-	vC08StateX(h, false)
 	conR := vC08Reactor(h.cs)
 	peer, _ := vC08Peer()
+	// the node may already hold a genuine vote of validator 0 (so that the incoming vote can be a
+	// duplicate of, or conflict with, a stored one), in this height's vote set or in the last commit.
+	// Vote-set bookkeeping does not depend on the step: with a prior vote the step is pinned.
+	prior := vNondetLen("prior", 0, 2)
+	bidKinds := 2
+	switch prior {
+	case 0:
+		vC08StateX(h, false)
+	case 1:
+		h.cs.Step = RoundStepPrevote
+		h.cs.Votes.SetRound(1)
+		typ := byte(types.VoteTypePrevote)
+		if vNondetBool("prior-precommit") {
+			typ = types.VoteTypePrecommit
+		}
+		bid := types.BlockID{Hash: []byte{0xA}, PartsHeader: types.PartSetHeader{Total: 1, Hash: []byte{0xA}}}
+		added, err := h.cs.Votes.AddVote(vVote(0, h.cs.Height, 0, typ, bid, true, 7), "peer-0")
+		vAssume(added && err == nil)
+	case 2:
+		h.cs.Step = RoundStepNewHeight // the only step at which late precommits of the previous height are taken
+		bidKinds = 3
+		h.cs.Votes.SetRound(1)
+		added, err := h.cs.LastCommit.AddVote(vVote(0, h.cs.Height-1, 0, types.VoteTypePrecommit, h.cs.state.LastBlockID, true, 7))
+		vAssume(added && err == nil)
+	}
 	var vote *types.Vote
 	if !vNondetBool("nilvote") {
 		vote = &types.Vote{
@@ -138,7 +166,7 @@ func VerifHarness_C08_vote_message() {
 			Height:           h.cs.Height + int64(vNondetLen("dheight", -1, 1)),
 			Round:            int64(vNondetRange("round", -1, 3)),
 			Type:             vNondetByte("type"),
-			BlockID:          vC08BlockID("bid"),
+			BlockID:          vC08BlockIDX("bid", bidKinds),
 		}
 		if !vNondetBool("nilsig") {
 			vote.Signature = vSign(vote.ValidatorIndex, types.SignBytes(vChain, vote), vNondetBool("validsig"), 9)
